@@ -249,8 +249,7 @@ def m_split_at_checked(ctx):
     T = S  # build the Some payload under the assumption n <= len (lengths stay non-negative)
     head = sub_seq(ctx, v, S.term(n), "head")
     tail = sub_seq(ctx, v, S.term(ln).sub(S.term(n)), "tail")
-    for h in ctx.I.hooks:
-        h("cursor_read", interp=ctx.I, ctx=ctx, source=v, count=n, head=head, tail=tail)
+    head = with_tags(head, [h("cursor_read", interp=ctx.I, ctx=ctx, source=v, count=n, const_count=None, head=head, tail=tail) for h in ctx.I.hooks])
     pair = Struct("tuple", [derived(ctx, head, "h"), derived(ctx, tail, "t")])
     vs, w = {}, {}
     if can_none:
@@ -262,13 +261,30 @@ def m_split_at_checked(ctx):
     return Enum(OPT, vs, w)
 
 
+def with_tags(v, tags):
+    """Sequence value with the provenance tags returned by observers added."""
+    tags = [t for t in tags if t is not None]
+    if not tags or not isinstance(v, Seq):
+        return v
+    return Seq(v.kind, v.len, v.elem, v.efacts, v.data, v.prov | frozenset(tags))
+
+
+def bump_skip(prov, n):
+    """Provenance of the rest of a tagged chunk after its first n bytes."""
+    if not any(isinstance(t, tuple) and t and t[0] == "read" for t in prov):
+        return prov
+    old = [t for t in prov if isinstance(t, tuple) and t and t[0] == "skip"]
+    k = sum(t[1] for t in old) + n
+    return (prov - frozenset(old)) | frozenset([("skip", k)])
+
+
 def arr_of_fresh(ctx, v, n, tag):
     """[T; n] made of n independent elements of the sequence."""
     I, S = ctx.I, ctx.S
     if isinstance(v, Arr):
         return Arr(list(v.elems[:n]) + [Opaque()] * max(0, n - len(v.elems)))
     if isinstance(v, Seq) and v.elem is not None:
-        return Arr([I.freshen(v.elem, S, ctx.site + (tag, i), v.efacts) for i in range(n)])
+        return Arr([I.freshen(v.elem, S, ctx.site + (tag, i), v.efacts, prov=v.prov, off=i) for i in range(n)])
     return Arr([Opaque()] * n)
 
 
@@ -281,10 +297,11 @@ def m_split_first_chunk(ctx):
     d = Lin.const(n).sub(S.term(ln))  # n - len <= 0 <=> Some
     can_some = not S.entails(d.scale(-1).addc(1))
     can_none = not S.entails(d)
-    head = arr_of_fresh(ctx, v, n, "fc")
     tail = sub_seq(ctx, v, S.term(ln).addc(-n), "tail")
-    for h in ctx.I.hooks:
-        h("cursor_read", interp=ctx.I, ctx=ctx, source=v, count=n, head=head, tail=tail)
+    if isinstance(tail, Seq):
+        tail = Seq(tail.kind, tail.len, tail.elem, tail.efacts, tail.data, bump_skip(tail.prov, n))
+    tagged = with_tags(v, [h("cursor_read", interp=ctx.I, ctx=ctx, source=v, count=None, const_count=n, head=None, tail=tail) for h in ctx.I.hooks])
+    head = arr_of_fresh(ctx, tagged, n, "fc")
     pair = Struct("tuple", [derived(ctx, head, "h"), derived(ctx, tail, "t")])
     vs, w = {}, {}
     if can_none:
